@@ -68,7 +68,7 @@ StepFree(e) ==
 EndLine(e) ==
     /\ UNCHANGED vars
     /\ UNCHANGED <<scen, confOK, closedSeen>>
-    /\ Complain((IF e.note # "" THEN {"harness.trouble"} ELSE {}) \cup EndRules(e), [who |-> "-", what |-> "end"])
+    /\ Complain(IF e.note # "" THEN {"harness.trouble"} ELSE EndRules(e), [who |-> "-", what |-> "end"])
 
 TInit == Init /\ l = 1 /\ bad = <<>> /\ scen = [name |-> "", line |-> 0] /\ confOK = TRUE /\ reported = {} /\ closedSeen = FALSE
 
